@@ -31,6 +31,20 @@ def canon_text(s):
     return ' '.join(out)
 
 
+LOGIC_KW = ('not', 'forall', 'exists')
+
+
+def own_logic_kw(ast):
+    """the tree has an own field named `not` / `forall` / `exists` (written directly where only a name can stand, e.g. `x = not + 1`)"""
+    try:
+        for n in ast.iterate():
+            if getattr(n, 'is_field', False) is True and getattr(n, 'field', None) in LOGIC_KW and getattr(n.message, 'is_this_msg', False):
+                return True
+    except Exception:
+        pass
+    return False
+
+
 def run(ctx):
     rng = ctx.rng
     from hpl.parser import expression_parser, predicate_parser, property_parser, specification_parser
@@ -99,6 +113,44 @@ def run(ctx):
             items.append(('property', ctl, pp, dump_property, pp.parse(ctl)))
         except Exception:
             rejects += 1
+    # ---- constants in every operand position, and token soups over the reserved words: the accepted ones are the texts in which a
+    # reserved word stands where only a name can (`{ and and and }`, `globally: no as`)
+    from soup import CONSTANT_TEXTS, soups
+    fam_counts = {'constants': 0, 'soup_accepted': 0}
+    for body in CONSTANT_TEXTS:
+        for entry, txt, parser, dumper in (('expression', body, ep, dump_expr), ('predicate', '{ ' + body + ' }', prp, dump_pred),
+                                           ('property', 'globally: no t { ' + body + ' }', pp, dump_property)):
+            try:
+                items.append((entry, txt, parser, dumper, parser.parse(txt)))
+                fam_counts['constants'] += 1
+            except Exception:
+                rejects += 1
+    # ---- own fields named `not` / `forall` / `exists`, written directly: names wherever the grammar expects an expression rather than a
+    # logic operand (`x = not + 1`); printed as the left operand of a parenthesised operator they stand at the start of a logic operand
+    fam_counts['own_logic_kw'] = 0
+    for kw in LOGIC_KW:
+        for body in (f'x = {kw} + 1', f'x = {kw} * 2', f'x < {kw}.a + 1', f'x in {{{kw} + 1}}', f'x in [{kw} - 1 to 2]', f'xs[{kw} + 1] = 1', f'abs({kw} + 1) > 0',
+                     f'x = {kw} ** 2', f'b and x = {kw} / 2',
+                     # controls: must round-trip
+                     f'x = {kw}', f'x = {kw}.y', f'1 + {kw} > 0', f'abs({kw}) > 0', f'xs[{kw}] = 1', f'x = -{kw}', f'x in {{{kw}, 1}}', f'forall i in {kw}: @i > 0'):
+            for entry, txt, parser, dumper in (('expression', body, ep, dump_expr), ('predicate', '{ ' + body + ' }', prp, dump_pred),
+                                               ('property', 'globally: no t { ' + body + ' }', pp, dump_property)):
+                try:
+                    items.append((entry, txt, parser, dumper, parser.parse(txt)))
+                    fam_counts['own_logic_kw'] += 1
+                    if entry == 'property':
+                        kwfam_texts.add(txt)
+                except Exception:
+                    rejects += 1
+    for entry, txt in soups(rng, 4000 if ctx.quick else 40000):
+        parser, dumper = {'expression': (ep, dump_expr), 'predicate': (prp, dump_pred), 'property': (pp, dump_property)}[entry]
+        try:
+            items.append((entry, txt, parser, dumper, parser.parse(txt)))
+            fam_counts['soup_accepted'] += 1
+            if entry == 'property':
+                kwfam_texts.add(txt)
+        except Exception:
+            pass
     for _ in range(60 if ctx.quick else 600):
         k = rng.randrange(1, 5)
         txt = '\n\n'.join(rng.choice(texts) for _ in range(k))
@@ -116,6 +168,8 @@ def run(ctx):
         lines.append(dumps([S('printany'), w]))
         inp = {'entry': entry, 'source': src, 'printed': s1}
         fam = ':own-alias-field-named-like-keyword' if src in own_kw_texts else (':own-alias-as-whole-message' if src in own_msg_texts else '')
+        if not fam and own_logic_kw(ast):
+            fam = ':own-field-named-like-logic-keyword'
         try:
             ast2 = parser.parse(s1)
         except Exception as e:
@@ -147,8 +201,10 @@ def run(ctx):
     # theorem's hypothesis (`printable`), the lexer makes `Raw.toks` of the printed form, the parser reads `Raw.toks` back
     rt = {'checked': 0, 'printable': 0, 'toks_equal': 0, 'read_back': 0, 'literal_tokens_complete': 0, 'model_text_is_chars': 0}
     if ctx.driver is not None:
-        rt_items = [(entry, src, ast) for entry, src, _, _, ast in items if entry in ('expression', 'predicate')]
-        rt_items += [(entry, str(ast), ast) for entry, src, _, _, ast in items if entry in ('expression', 'predicate') and not (entry == 'predicate' and ast.is_vacuous)]
+        # (trees with an own field named like a logic keyword are outside `Raw.printable`: known finding, judged above)
+        rt_src = [(entry, src, ast) for entry, src, _, _, ast in items if entry in ('expression', 'predicate') and not own_logic_kw(ast)]
+        rt_items = list(rt_src)
+        rt_items += [(entry, str(ast), ast) for entry, src, ast in rt_src if not (entry == 'predicate' and ast.is_vacuous)]
         # property level (Props/C06c): the printed form of every parsed property
         rt_items += [('property', str(ast), ast) for entry, src, _, _, ast in items if entry == 'property' and src not in kwfam_texts]
         am = ctx.driver.run_parallel([dumps([S('rtcheck'), S(entry), src]) for entry, src, _ in rt_items])
@@ -185,7 +241,7 @@ def run(ctx):
         'samples': samples,
         'violations': violations,
         'disagreements': disagreements,
-        'coverage_extra': {'generator_rejects': rejects, 'distinct_printed_forms': len(printed), 'roundtrip_theorem_instances': rt},
+        'coverage_extra': {'generator_rejects': rejects, 'families': fam_counts, 'distinct_printed_forms': len(printed), 'roundtrip_theorem_instances': rt},
     }
 
 
